@@ -48,6 +48,8 @@ def gen_sessions(rng, net, n_max=25, horizon=36):
     """mostly valid: per-station non-overlapping intervals; back-to-back reuse and simultaneous
     arrivals/departures are each forced with probability 1/2"""
     n_st = len(net["stations"])
+    if rng.random() < 0.1:
+        return lockstep_sessions(rng, net, n_max, horizon)
     n = rng.choice([0, 1, 2, 3, 5, 8, 12, 16, 20, n_max])
     free_from = [0] * n_st           # first period at which the station is free again
     times = []                       # arrivals and departures so far
@@ -87,6 +89,25 @@ def gen_sessions(rng, net, n_max=25, horizon=36):
         sessions.append(dict(sid=sid_pool[k], station=net["stations"][s]["num"], arrival=arr, departure=dep,
                              est=est, req=float(req), cap=float(max(cap, 0.01)), init=float(min(init, max(cap, 0.01))),
                              maxp=rng.choice([3.3, 6.6, 7.0, 20.0])))
+    rng.shuffle(sessions)
+    return sessions
+
+
+def lockstep_sessions(rng, net, n_max, horizon):
+    """maximal ties: every station turns over at the same instants k*d (all departures and all
+    arrivals of a boundary share one timestamp), back-to-back on every station"""
+    d = rng.choice([1, 2, 3, 5])
+    sessions = []
+    pool = rng.sample(range(1, 500), n_max + 1)
+    k = 0
+    while len(sessions) < n_max and (k + 1) * d <= horizon:
+        for st in net["stations"]:
+            if len(sessions) < n_max and rng.random() < 0.85:
+                req = rng.choice([0.0, 0.05, 0.3, 1.0, 2.5])
+                sessions.append(dict(sid=pool[len(sessions)], station=st["num"], arrival=k * d, departure=(k + 1) * d,
+                                     est=None, req=float(req), cap=float(req + rng.choice([0, 5])) or 0.01, init=0.0,
+                                     maxp=rng.choice([3.3, 6.6, 20.0])))
+        k += 1
     rng.shuffle(sessions)
     return sessions
 
